@@ -1,5 +1,6 @@
 From GV Require Import Base.Grammar LR.Automaton Repair.Semantics Repair.Spec Repair.Proofs Repair.Example.
 
+From GV Require LR.TermSpec Properties.LRterm.
 Theorem C07_errors_spaced : errors_spaced_stmt.
 Proof. exact errors_spaced. Qed.
 Print Assumptions C07_errors_spaced.
@@ -35,3 +36,40 @@ Print Assumptions C07_first_error_is_plain_reject.
 Theorem C07_valid_repair_progress : valid_repair_progress_stmt.
 Proof. exact valid_repair_progress. Qed.
 Print Assumptions C07_valid_repair_progress.
+
+(* "a parse always returns": the plain LR loop terminates within lr_fuel for every table passing validS/validE of a
+   grammar without derivation cycles AND without hidden left recursion (no validC: conflict-resolved tables included);
+   hidden left recursion is excluded automatically for validated conflict-free tables; without it the statement is
+   refuted by the implementation's own table for S: 'c' 'c' A | B; A: | B 'b'; B: 'a' 'a' 'd' | A A (known finding) *)
+Theorem C07_lr_terminates : GV.LR.TermSpec.lr_terminates_stmt.
+Proof. exact GV.Properties.LRterm.LRterm_lr_terminates. Qed.
+Print Assumptions C07_lr_terminates.
+
+Theorem C07_lr_terminates_b : GV.LR.TermSpec.lr_terminates_b_stmt.
+Proof. exact GV.Properties.LRterm.LRterm_lr_terminates_b. Qed.
+Print Assumptions C07_lr_terminates_b.
+
+Theorem C07_lr_terminates_validated : GV.LR.TermSpec.lr_terminates_validated_stmt.
+Proof. exact GV.Properties.LRterm.LRterm_lr_terminates_validated. Qed.
+Print Assumptions C07_lr_terminates_validated.
+
+Theorem C07_acyclic_b_sound : GV.LR.TermSpec.acyclic_b_sound_stmt.
+Proof. exact GV.Properties.LRterm.LRterm_acyclic_b_sound. Qed.
+Print Assumptions C07_acyclic_b_sound.
+
+Theorem C07_acyclic_b_complete : GV.LR.TermSpec.acyclic_b_complete_stmt.
+Proof. exact GV.Properties.LRterm.LRterm_acyclic_b_complete. Qed.
+Print Assumptions C07_acyclic_b_complete.
+
+Theorem C07_hlr_free_b_sound : GV.LR.TermSpec.hlr_free_b_sound_stmt.
+Proof. exact GV.Properties.LRterm.LRterm_hlr_free_b_sound. Qed.
+Print Assumptions C07_hlr_free_b_sound.
+
+Theorem C07_hlr_free_b_complete : GV.LR.TermSpec.hlr_free_b_complete_stmt.
+Proof. exact GV.Properties.LRterm.LRterm_hlr_free_b_complete. Qed.
+Print Assumptions C07_hlr_free_b_complete.
+
+Theorem C07_lr_terminates_validS_only_refuted : GV.LR.TermSpec.lr_terminates_validS_only_refuted_stmt.
+Proof. exact GV.Properties.LRterm.LRterm_lr_terminates_validS_only_refuted. Qed.
+Print Assumptions C07_lr_terminates_validS_only_refuted.
+
